@@ -131,7 +131,14 @@ let rec opt_of_sx (x : sx) : opt =
   | _ -> raise Bad
 
 (* ---------- world ---------- *)
-let fuel = nat_of_int 200000
+(* recursion fuel handed to the model: grown on demand so that it exceeds 8 x the largest text seen plus a margin *)
+let fuel_size = ref 200000
+let fuel_val = ref (nat_of_int 200000)
+let need_fuel n =
+  if 8 * n + 100000 > !fuel_size then begin
+    fuel_size := 2 * (8 * n + 100000);
+    fuel_val := nat_of_int !fuel_size
+  end
 let root = ref ""
 let subst_root (s : string) : string =
   if String.length s >= 2 && String.sub s 0 2 = "@R" then !root ^ String.sub s 2 (String.length s - 2) else s
@@ -150,6 +157,7 @@ let w = ref (fresh_world ())
 let ctxs : (cfg * str list) option array = Array.make 64 None     (* context and its search path (newest first) *)
 let schemas : opt list option array = Array.make 64 None
 let lex_line = ref N0
+let file_sizes : (string, int) Hashtbl.t = Hashtbl.create 16
 
 let sanitize (s : string) =
   String.map (fun c -> if (c >= 'A' && c <= 'Z') || (c >= 'a' && c <= 'z') || (c >= '0' && c <= '9') || c = '%' then c else '_') s
@@ -261,6 +269,7 @@ let exec (toks : string list) =
      | Some u -> let ww = !w in w := { ww with w_pw = { ww.w_pw with pw_self = Some u } }; line "passwd_self"
      | None -> raise Bad)
   | "file" :: p :: kind :: rest ->
+    (match rest with h :: _ -> Hashtbl.replace file_sizes p (String.length h / 2) | [] -> ());
     (match path_of_hex p with
      | None -> raise Bad
      | Some path ->
@@ -295,7 +304,7 @@ let exec (toks : string list) =
      | Some decls ->
        if ctxs.(ci) <> None then line "init rc=exists" else begin
          w := set_path !w [];
-         let (w1, cfg) = cfg_init strtod_o fuel !w decls (n_of_int (int_of_string f)) in
+         let (w1, cfg) = cfg_init strtod_o !fuel_val !w decls (n_of_int (int_of_string f)) in
          w := w1; ctxs.(ci) <- Some (cfg, []);
          std "init" "rc=ptr"
        end)
@@ -306,13 +315,13 @@ let exec (toks : string list) =
       | None -> std "searchpath" "rc=-1"
       | Some dir -> put ci cfg (tilde_expand (!w).w_pw dir :: sp); std "searchpath" "rc=0")
   | ["parse_buf"; c; t] -> with_ctx "parse_buf" c (fun ci cfg sp ->
-      let ((w1, cfg1), rc) = parse_buf strtod_o fuel !w cfg (ostr_of_hex t) in
+      let ((w1, cfg1), rc) = parse_buf strtod_o !fuel_val !w cfg (ostr_of_hex t) in
       w := w1; put ci cfg1 sp; std "parse_buf" ("rc=" ^ zrc rc))
   | ["parse_file"; c; p] -> with_ctx "parse_file" c (fun ci cfg sp ->
       match path_of_hex p with
       | None -> std "parse_file" "rc=-1"
       | Some path ->
-        let ((w1, cfg1), rc) = parse_file strtod_o fuel !w cfg path in
+        let ((w1, cfg1), rc) = parse_file strtod_o !fuel_val !w cfg path in
         w := w1; put ci cfg1 sp; std "parse_file" ("rc=" ^ zrc rc))
   | ["parse_fp"; c; p] -> with_ctx "parse_fp" c (fun ci cfg sp ->
       match path_of_hex p with
@@ -320,10 +329,10 @@ let exec (toks : string list) =
       | Some path ->
         (match fs_lookup (!w).w_fs path with
          | FFile content ->
-           let ((w1, cfg1), rc) = parse_fp strtod_o fuel !w cfg content in
+           let ((w1, cfg1), rc) = parse_fp strtod_o !fuel_val !w cfg content in
            w := w1; put ci cfg1 sp; std "parse_fp" ("rc=" ^ zrc rc)
          | FDir ->                           (* fopen succeeds on a directory; reading fails *)
-           let ((w1, cfg1), rc) = parse_fp_unreadable strtod_o fuel !w cfg in
+           let ((w1, cfg1), rc) = parse_fp_unreadable strtod_o !fuel_val !w cfg in
            w := w1; put ci cfg1 sp; std "parse_fp" ("rc=" ^ zrc rc)
          | FMissing -> std "parse_fp" "rc=nofile"))
   | ["lex"; t] ->
@@ -391,11 +400,11 @@ let exec (toks : string list) =
       w := w1; put ci cfg1 sp; std cmd ("rc=" ^ zrc rc))
   | "setmulti" :: c :: p :: vs -> with_ctx "setmulti" c (fun ci cfg sp ->
       let name = (match ostr_of_hex p with Some s -> s | None -> []) in
-      let ((w1, cfg1), rc) = cfg_setmulti strtod_o fuel !w cfg name (List.map ostr_of_hex vs) in
+      let ((w1, cfg1), rc) = cfg_setmulti strtod_o !fuel_val !w cfg name (List.map ostr_of_hex vs) in
       w := w1; put ci cfg1 sp; std "setmulti" ("rc=" ^ zrc rc))
   | ["setopt"; c; p; v] -> with_ctx "setopt" c (fun ci cfg sp ->
       let name = (match ostr_of_hex p with Some s -> s | None -> []) in
-      let ((w1, cfg1), r) = cfg_setopt_cmd strtod_o fuel !w cfg name (ostr_of_hex v) in
+      let ((w1, cfg1), r) = cfg_setopt_cmd strtod_o !fuel_val !w cfg name (ostr_of_hex v) in
       w := w1; put ci cfg1 sp;
       std "setopt" ("rc=" ^ (match r with None -> "noopt" | Some true -> "ptr" | Some false -> "null")))
   | ["setcomment"; c; p; v] -> with_ctx "setcomment" c (fun ci cfg sp ->
@@ -404,7 +413,7 @@ let exec (toks : string list) =
       w := w1; put ci cfg1 sp; std "setcomment" ("rc=" ^ zrc rc))
   | ["addtsec"; c; p; t] -> with_ctx "addtsec" c (fun ci cfg sp ->
       let name = (match ostr_of_hex p with Some s -> s | None -> []) in
-      let ((w1, cfg1), ok) = cfg_addtsec strtod_o fuel !w cfg name (ostr_of_hex t) in
+      let ((w1, cfg1), ok) = cfg_addtsec strtod_o !fuel_val !w cfg name (ostr_of_hex t) in
       w := w1; put ci cfg1 sp; std "addtsec" ("rc=" ^ (if ok then "ptr" else "null")))
   | ["rmsec"; c; p] -> with_ctx "rmsec" c (fun ci cfg sp ->
       let name = (match ostr_of_hex p with Some s -> s | None -> []) in
@@ -440,6 +449,17 @@ let exec (toks : string list) =
   | ["print"; c; ind] -> with_ctx "print" c (fun _ cfg _ ->
       let text = cfg_print_indent fmt_f cfg (nat_of_int (int_of_string ind)) in
       std "print" ("rc=0 text=" ^ hex_of_str text))
+  | ["roundtrip"; c; d] -> with_ctx "roundtrip" c (fun _ cfg _ ->
+      let di = int_of_string d in
+      match ctxs.(di) with
+      | None -> line "roundtrip rc=nocontext"
+      | Some (dcfg, dsp) ->
+        let text = cfg_print_indent fmt_f cfg O in
+        w := set_path !w dsp;
+        need_fuel (List.length text);
+        let ((w1, dcfg1), rc) = parse_buf strtod_o !fuel_val !w dcfg (Some text) in
+        w := w1; ctxs.(di) <- Some (dcfg1, dsp);
+        std "roundtrip" ("rc=" ^ zrc rc ^ " text=" ^ hex_of_str text))
   | ["printopt"; c; p] -> with_ctx "printopt" c (fun _ cfg _ ->
       let name = (match ostr_of_hex p with Some s -> s | None -> []) in
       let (r, ds) = cfg_getopt cfg name in
@@ -508,6 +528,7 @@ let () =
        else if !dead || !cur = None then ()
        else begin
          let toks = String.split_on_char ' ' l in
+         need_fuel (String.length l / 2 + Hashtbl.fold (fun _ v a -> max a v) file_sizes 0);
          let mark = Buffer.length out in
          (try exec toks with Bad | Failure _ | Invalid_argument _ | Not_found -> line (List.hd toks ^ " rc=badargs"));
          if crashed () then begin dead := true; Buffer.truncate out mark end
